@@ -49,7 +49,7 @@ CHECKS = {
                 "pid/env/file-time input outside listed path/trace readers, no state carried in statics, no build path in "
                 "any generated file (checked on everything the build and the witnesses generate), and the complete "
                 "Cli-field -> setter table (polarity, side effects, call order) that makes rcomp equal to the API. "
-                "This is a for-all argument from the shape of the code; it does not run the compiler.",
+                "This is a for-all argument from the shape of the code; it does not run the compiler. Late addition: no Settings setter overwrites fields other setters own (C17-R8; known finding: parser_algo does).",
         "note": "Trusted: rustc MIR for the analysed build configuration; prettyplease/syn assumed deterministic; the "
                 "documented side-effect table of Settings setters (rules/tables/settings_setters.json).",
     },
@@ -138,7 +138,7 @@ CHECKS = {
                 "content parameter exactly once and build vectors in input order. Complete per program (in-repo corpus + "
                 "witnesses; thorough: + a matrix of every repository grammar x 10 configurations); the GLR replay clause is "
                 "decided on the runtime's MIR (post-order replay through the LR builder protocol, right-nulled extension of "
-                "the matched solution). Does not run any parser.",
+                "the matched solution). Does not run any parser. Late addition: a ?= assignment must be read by the generator (C10-R7; known finding: is_bool is read nowhere).",
         "note": "Trusted: hook dump, syn; hand-maintained actions files (force off) are out of scope.",
     },
     "C11": {
@@ -158,7 +158,7 @@ CHECKS = {
         "level": "other",
         "ref": "DESIGN.md §5 C02",
         "technique": 'argument provenance and ordering rules over MIR by path simulation (LR driver, stacks, builder), finite decision table of next_token, structural rules on table construction and generated STOP recognisers',
-        "text": "Decides necessary structural clauses of 'the tree is a derivation of the consumed input': Reduce cells are (prod, position) of reducing items; cells only mutated by allowed operations; the LR driver pops/gotos/pushes/calls the builder with the table's (prod, len) and shifts the token that selected the action; stacks split exactly and keep order; result is the top of the builder stack; complete next_token table (synthetic STOP only under partial_parse and STOP expected); generated STOP recogniser matches only at the end; the LR loop answers Ok only through Accept. Partial: not the language, not the gotos.",
+        "text": "Decides necessary structural clauses of 'the tree is a derivation of the consumed input': Reduce cells are (prod, position) of reducing items; cells only mutated by allowed operations; the LR driver pops/gotos/pushes/calls the builder with the table's (prod, len) and shifts the token that selected the action; stacks split exactly and keep order; result is the top of the builder stack; complete next_token table (synthetic STOP only under partial_parse and STOP expected); generated STOP recogniser matches only at the end; the LR loop answers Ok only through Accept. Partial: not the language, not the gotos. Late addition: right-nulled lengths must be tied to the GLR algorithm (C02-R1b; known finding: they are not).",
         "note": 'Trusted: rustc MIR of the generic runtime (pre-monomorphisation); user builders follow the LRBuilder protocol.',
     },
     "C12": {
@@ -166,7 +166,7 @@ CHECKS = {
         "level": "other",
         "ref": "DESIGN.md §5 C12",
         "technique": 'finite decision table of the LR error path, argument provenance of the error value, ordering rules, GLR error-path rules by path simulation',
-        "text": "Decides where the reported offset and expected set come from (LR and GLR), that whitespace is skipped before the position is read, that errors are neither swallowed nor invented, Ok is only reached through Accept, and that nothing but parse(), the LR shift and the whitespace skip writes the position (who-may-write). Partial: does not decide that the table's error cells are exactly the non-viable prefixes, nor line/column arithmetic.",
+        "text": "Decides where the reported offset and expected set come from (LR and GLR), that whitespace is skipped before the position is read, that errors are neither swallowed nor invented, Ok is only reached through Accept, and that nothing but parse(), the LR shift and the whitespace skip writes the position (who-may-write). Partial: does not decide that the table's error cells are exactly the non-viable prefixes, nor line/column arithmetic. Late addition: the GLR error is made from the furthest head (C12-R8; known finding: from the first).",
         "note": 'Trusted: rustc MIR; the table itself (C01/C04 territory).',
     },
     "C13": {
@@ -182,7 +182,7 @@ CHECKS = {
         "level": "other",
         "ref": "DESIGN.md §5 C14",
         "technique": 'ordering/must-pass-through and provenance rules on every hand-off of layout (path simulation), finite tables for configuration wiring',
-        "text": 'Decides each hand-off of layout in the LR parser: tried only without a token and in the layout state, stored before the retry, restored after the re-lex that follows a reduce, reset after a shift, whitespace skipper slice/position, builders store it on the right node, layout parser returns an input slice, AUGL lookup and skip_ws && !has_layout. Partial: not the round trip itself.',
+        "text": 'Decides each hand-off of layout in the LR parser: tried only without a token and in the layout state, stored before the retry, restored after the re-lex that follows a reduce, reset after a shift, whitespace skipper slice/position, builders store it on the right node, layout parser returns an input slice, AUGL lookup and skip_ws && !has_layout. Partial: not the round trip itself. Late additions: after a reduction the older layout is put back only when the second fetch found none (C14-R2), the retry accumulates layout and layout is not tried after tokens only (C14-R1; two known findings).',
         "note": 'Trusted: rustc MIR; GLR trees drop layout by design (property stated for LR).',
     },
     "C03": {
@@ -198,7 +198,7 @@ CHECKS = {
         "level": "other",
         "ref": "DESIGN.md §5 C06",
         "technique": 'finite decision tables (sort key, finish flags, lexer stop rule, GLR filter) and provenance/sibling rules over MIR',
-        "text": "Decides the structure of lexical disambiguation: candidate set, stable descending sort and key table, finish-flag tables, the lexer's stop table, LR/GLR parser-side filters and their sibling agreement, kind->recogniser mapping, shifted heads of lexical alternatives kept apart by position (shared with C03-R2); one known finding (priority-group cut). Partial: not which token wins for concrete regexes and inputs.",
+        "text": "Decides the structure of lexical disambiguation: candidate set, stable descending sort and key table, finish-flag tables, the lexer's stop table, LR/GLR parser-side filters and their sibling agreement, kind->recogniser mapping, shifted heads of lexical alternatives kept apart by position (shared with C03-R2); one known finding (priority-group cut). Partial: not which token wins for concrete regexes and inputs. Late addition: the terminal order key must be lexicographic (C06-R7; known finding: prio*1000+len).",
         "note": 'Trusted: rustc MIR; documented order of strategies (docs lexical ambiguities).',
     },
     "C07": {
@@ -230,7 +230,7 @@ CHECKS = {
         "level": "other",
         "ref": "DESIGN.md §5 C09",
         "technique": 'structural rules over the grammar builder from MIR: finite table of the EMPTY filter, adaptor whitelist, provenance of start/AUG/ntidx, guard polarity of meta inheritance, desugar templates vs the documented expansions, memo-key completeness, guarded inserts',
-        "text": 'Decides structural clauses of `the analysed grammar is the one written`: EMPTY filter drops exactly EMPTY references unconditionally; no reordering/dropping; ntidx, start symbol, AUG; meta-data inheritance polarity and order; inline literal resolution; helper rules of ?, *, + equal the documented expansions; helper reuse key covers the separator (known finding); no definition silently dropped (known findings).',
+        "text": 'Decides structural clauses of `the analysed grammar is the one written`: EMPTY filter drops exactly EMPTY references unconditionally; no reordering/dropping; ntidx, start symbol, AUG; meta-data inheritance polarity and order; inline literal resolution; helper rules of ?, *, + equal the documented expansions; helper reuse key covers the separator (known finding); no definition silently dropped (known findings). Late additions: keys that map to one Production field are inherited as one datum (C09-R3 assoc clause), the Layout rule is found by its name as written (C09-R2b; known finding).',
         "note": 'Trusted: rustc MIR; docs/src/grammar_language.md as the spec of the expansions. The bootstrapped parser of the grammar language is not validated here.',
     },
 }
